@@ -189,6 +189,21 @@ def verify_function(prog, db, q, contract, case=None):
                     env[p] = None
                 elif cv == 'int':
                     env[p] = fresh_scalar(INT, p)
+                elif cv == 'gen':
+                    from .rng_rules import ST
+                    env[p] = st.alloc(SGen(z3.Const(fresh_name('genstate'), ST)))
+                elif cv == 'real':
+                    env[p] = fresh_scalar(REAL, p)
+                elif cv == 'intlist':
+                    env[p] = make_param(ex, st, TList(INT), p)
+                elif cv == 'arrlist':
+                    env[p] = make_param(ex, st, TList(TArr('float', 2)), p)
+                elif cv == 'notarray':
+                    env[p] = ('opaque', p)
+                elif cv == 'arr1':
+                    env[p] = make_param(ex, st, TArr('float', 1), p)
+                elif cv == 'arr2':
+                    env[p] = make_param(ex, st, TArr('float', 2), p)
                 elif cv == 'pair':
                     env[p] = (fresh_scalar(INT, p + '_lo'), fresh_scalar(INT, p + '_hi'))
                 elif cv == 'triple':
